@@ -56,6 +56,7 @@ type interpreter struct {
 	sch                *sched
 	protoSeq           int
 	manualTimers       bool
+	jsonStreams        map[*value]*jsonStream
 	pendingTimers      []*channel
 	protoMsgs          map[string]iface
 	nowHook            *value // harness clock cell (unix nanos), if the harness installed one
